@@ -64,6 +64,10 @@ FAULT_DESIGNS = [
 
 
 def run(ctx):
+    import contracts.core     # noqa: F401
+    from pyvc.contract import REGISTRY
+    from pyvc import run as prun
+    prun.run_contracts(ctx, [c for c in REGISTRY.values() if 'C10' in c.props], 'contracts.core')
     fds = list(FAULT_DESIGNS)
     if ctx.tier != 'quick':
         fds += [{'name': 'rand_design', 'params': {'seed': s}} for s in range(12)]
@@ -137,5 +141,11 @@ def run(ctx):
                exhaustive=(exh == len(sds)),
                bound='all tie-break schedules of to_clear.pop() enumerated (cap %d per design; %d of %d '
                      'designs complete)' % (limit, exh, len(sds)), sample=sds[0])
-    return ctx.finish('fault_enumeration', './check C10', ['CPython'],
-                      'fault enumeration over API-built designs + exhaustive iteration schedules')
+    ctx.assume('sanity_check_net contract: arities 0..4, 0..2 destinations, the parameter shapes of '
+               'contracts/core.py (None, int tuples of length 0..2, (int, MemBlock), malformed tuples, int, '
+               'list); wires are valid WireVectors registered with the block (sanity_check_wirevector '
+               'stubbed); bitwidths and wire kinds symbolic')
+    return ctx.finish('fault_enumeration', './check C10', ['z3', 'pyvc', 'CPython'],
+                      'P: sanity_check_net accepts exactly WF_net (DESIGN A.2) for all bitwidths / wire kinds '
+                      'per (op, arity, parameter shape) case; fault enumeration over API-built designs + '
+                      'exhaustive iteration schedules (bounded)')
